@@ -34,7 +34,7 @@ META['C19'] = {'engine': 'rest', 'level_text': "rapid campaigns over request seq
 
 META['C06'] = {'engine': 'osproc', 'level_text': "rapid campaigns over shutdown parameters x real process trees x stop triggers (API and OS signals to the production binary), judged from signal records written by the children, /proc and monotonic time; exploration", 'level_note': "no hooks on this path: real exec, process groups and pipes; real-time bounds are one-sided (sound), slowness is inconclusive", 'technique': "property-based testing (rapid) with real child processes: generated configurations and process trees, ground truth from the children"}
 
-META['C20'] = {'engine': 'race', 'level_text': "rapid campaigns of concurrent API operation sets against churning processes under the Go race detector, with crash and watchdog detection; exploration, and the weakest of the twenty: the unchanged tree already races in about 50 functions, which are recorded findings, so only races in other functions, new crash sites and blocked calls are reported", 'level_note': "race detector semantics; fake commander seam; identity of a finding = racy function / crash site", 'technique': "property-based testing (rapid) of concurrent operation sets under the race detector"}
+META['C20'] = {'engine': 'race', 'level_text': "rapid campaigns of concurrent API operation sets (queries, log subscriptions, websocket log streams through the real routes, start/stop/restart, scale, update) against churning processes under the Go race detector, with crash and watchdog detection; exploration, and the weakest of the twenty: the unchanged tree already races in 53 functions, which are recorded findings, so a race is reported only if it involves another function or - inside a recorded function - a source line that function did not have when it was recorded; crashes are judged by class and site; blocked calls by a 20 s watchdog", 'level_note': "race detector semantics (only interleavings that occur); fake commander seam; identity of a finding = racy function + source line text (known_race_sites.json) / crash class and site", 'technique': "property-based testing (rapid) of concurrent operation sets under the race detector"}
 
 NOT_APPLICABLE = {}
 
